@@ -95,12 +95,19 @@ func cacheDirs(m *Machine) []string {
 // auditCache checks the persistent cache offline (C07): every blob visible under a digest has
 // exactly that content, every target result decodes and references only present blobs.
 func (w *wbuild) auditCache(m *Machine, when string) {
+	w.auditCacheWith(m, when, nil)
+}
+
+// auditCacheWith: alsoHave (optional) tells whether a blob is held by the remote store the
+// local cache is a read-through / write-through mirror of.
+func (w *wbuild) auditCacheWith(m *Machine, when string, alsoHave func(digest string) bool) {
 	report := func(class, sig, detail string) {
 		w.s.Report(simrt.Violation{Prop: "C07", Class: class, Signature: sig, Detail: when + ": " + detail})
 	}
 	for _, cd := range cacheDirs(m) {
 		casDir := filepath.Join(cd, "cas")
-		have := map[string]bool{}
+		have0 := map[string]bool{}
+		has := func(d string) bool { return have0[d] || (alsoHave != nil && alsoHave(d)) }
 		ents, _ := os.ReadDir(casDir)
 		for _, e := range ents {
 			if e.IsDir() || strings.HasPrefix(e.Name(), "tmp-") {
@@ -110,7 +117,7 @@ func (w *wbuild) auditCache(m *Machine, when string) {
 			if err != nil {
 				continue
 			}
-			have[e.Name()] = true
+			have0[e.Name()] = true
 			if got := hashing.HashBytes(b); got != e.Name() {
 				report("mismatching-blob", "cas", fmt.Sprintf("cas/%s holds %d bytes that hash to %s (a partially written or corrupt blob is visible under a content digest)", e.Name(), len(b), got))
 			}
@@ -135,12 +142,12 @@ func (w *wbuild) auditCache(m *Machine, when string) {
 			for _, o := range tr.Outputs {
 				switch k := o.Kind.(type) {
 				case *gen.Output_File:
-					if d := k.File.GetDigest().GetHash(); !have[d] {
+					if d := k.File.GetDigest().GetHash(); !has(d) {
 						report("dangling-reference", "file", fmt.Sprintf("target/%s references file blob %s (%s) that is not in the cache", e.Name(), d, k.File.GetPath()))
 					}
 				case *gen.Output_Directory:
 					td := k.Directory.GetTreeDigest().GetHash()
-					if !have[td] {
+					if !has(td) {
 						report("dangling-reference", "tree", fmt.Sprintf("target/%s references tree %s (%s) that is not in the cache", e.Name(), td, k.Directory.GetPath()))
 						continue
 					}
@@ -156,7 +163,7 @@ func (w *wbuild) auditCache(m *Machine, when string) {
 							continue
 						}
 						for _, f := range d.Files {
-							if h := f.GetDigest().GetHash(); !have[h] {
+							if h := f.GetDigest().GetHash(); !has(h) {
 								report("dangling-reference", "tree-file", fmt.Sprintf("target/%s: tree %s references file blob %s (%s) that is not in the cache", e.Name(), td, h, f.Name))
 							}
 						}
